@@ -7,6 +7,7 @@
 -/
 import Oryx.Base.Text
 import Oryx.Model.WsHandshake
+import Oryx.Spec.Sha1
 namespace Oracle.WsHs
 open Oryx Oryx.Model.WsHs
 
@@ -81,6 +82,8 @@ def handle (op : String) (args : List String) : Option String :=
   | "hs.client", [accept, key, status, hdr] => do
     let accept ← parseBytes accept
     pure (clStr (clientCheck (fun _ => accept) (← parseBytes key) (← status.toNat?) (← parseHeader hdr)))
+  | "hs.accept", [key] => do pure (toHex (Oryx.Spec.Sha1.acceptKey (← parseBytes key)))
+  | "hs.sha1", [m] => do pure (toHex (Oryx.Spec.Sha1.sha1 (← parseBytes m)))
   | "hs.transport", [hdr] => do pure (headerStr (transport (← parseHeader hdr)))
   | _, _ => none
 
